@@ -92,7 +92,7 @@ theorem Quiet.drainActions (s : St) (nc : Nat) : Quiet (drainActions s nc).2 := 
   simp only
   intro x hx
   rcases List.mem_filterMap.mp hx with ⟨e, _, he⟩
-  cases ha : e.2.2 <;> simp [ha] at he
+  cases ha : e.2.2 <;> simp [joinAnswer, ha] at he
   subst he; rfl
 
 theorem Quiet.drainPleases (s : St) : Quiet (drainPleases s).2 := Quiet.answerAll _ rfl
@@ -173,7 +173,7 @@ theorem Quiet.sweep (c : Cfg) (s : St) : Quiet (sweep c s).2 := by
     (Quiet.answerAll _ rfl) |>.append ?_
   intro x hx
   rcases List.mem_filterMap.mp hx with ⟨e, _, he⟩
-  cases ha : e.2.2 <;> simp [ha] at he
+  cases ha : e.2.2 <;> simp [joinAnswer, ha] at he
   subst he; rfl
 
 theorem Quiet.heartbeat (c : Cfg) (s : St) : Quiet (heartbeat c s).2 := by
